@@ -227,7 +227,9 @@ EXPLANATION = ("Necessary conditions of completeness decided statically for all 
                "fixed-base power the base is the member its table was precomputed from (per class, from the precompute sites) or the path "
                "carries an equality guard with it -- a guard establishing inequality is a contradiction that makes every honest run fail; "
                "(R03b) the prover's I/O shape (sends, receives, loops, alternatives, sub-protocol calls) is the exact dual of the "
-               "verifier's; (R03c) both sides call the same hash function with the same count and argument roles. The algebra that makes the "
+               "verifier's; (R03c) both sides call the same hash function with the same count and argument roles; (R03d) sibling constructors "
+               "of a class forward the same configuration parameters to sub-objects; (R03e) no verifier refuses a statement for having a "
+               "specific value through a clause that is not part of the confirmed inventory. The algebra that makes the "
                "verifier's equations follow from the prover's computation is not decided.")
 ASSUMPTIONS = ["tables are used only after the precompute of their class ran (constructor / Finalize)",
                "numeric string literals sent are values, other literals are framing", "prover and verifier are paired by name"]
